@@ -84,3 +84,9 @@ Proof. repeat split; reflexivity. Qed.
 From SymfcG Require Import ShapesSolvers SkelSolvers.
 Theorem c07_code_path_in_force : ShapesSolvers_as_recorded = true /\ SkelSolvers_as_recorded = true.
 Proof. repeat split; reflexivity. Qed.
+
+(** "Everything inside the cutoff remains free up to the symmetry constraints; a large cutoff gives the no-cutoff space; enlarging never
+    shrinks" are statements about the whole basis construction with a cutoff: every stage is the recorded source. *)
+From SymfcG Require Import ShapesCoset ShapesSumRule ShapesSpg ShapesReps ShapesO1 ShapesAuxO1 ShapesAuxEig ShapesAuxBatch SkelSpg SkelEig SkelMat SkelIdx.
+Theorem c07_code_path2_in_force : ShapesCoset_as_recorded = true /\ ShapesSumRule_as_recorded = true /\ ShapesSpg_as_recorded = true /\ ShapesReps_as_recorded = true /\ ShapesO1_as_recorded = true /\ ShapesAuxO1_as_recorded = true /\ ShapesAuxEig_as_recorded = true /\ ShapesAuxBatch_as_recorded = true /\ SkelSpg_as_recorded = true /\ SkelEig_as_recorded = true /\ SkelMat_as_recorded = true /\ SkelIdx_as_recorded = true.
+Proof. repeat split; reflexivity. Qed.
